@@ -268,14 +268,45 @@ func c18(c *Ctx) {
 			r.Unresolved("(*MetricFlusher).makeTicker")
 			return
 		}
+		// a value is "field X of the flusher" if it is loaded from it here, or is a parameter that every
+		// caller binds to that field
+		isFlusherField := func(v ssa.Value, field string) bool {
+			if strings.HasSuffix(pathOf(v), "."+field) {
+				return true
+			}
+			if p, ok := v.(*ssa.Parameter); ok {
+				idx := paramIndex(mt, p)
+				n := 0
+				for _, fn := range w.ModuleFuncs() {
+					for _, cc := range callsIn(fn) {
+						if staticCallee(cc) == mt {
+							n++
+							if !strings.HasSuffix(pathOf(cc.Common().Args[idx]), "."+field) {
+								return false
+							}
+						}
+					}
+				}
+				return n > 0
+			}
+			return false
+		}
+		alignedKnown := func(b *ssa.BasicBlock, want bool) bool {
+			for _, f := range factsAt(b) {
+				if f.Op == token.ILLEGAL && f.True == want && isFlusherField(f.V, "flushAligned") {
+					return true
+				}
+			}
+			return false
+		}
 		for _, cl := range callsIn(mt) {
 			if cal := staticCallee(cl); cal != nil && cal.Name() == "NewAlignedTickerWithContext" {
 				cs := strings.Join(condStrings(cl.Block()), " && ")
-				r.Check("makeTicker:aligned-when-configured", strings.Contains(cs, ".flushAligned=true"), cl.Pos(), cs)
+				r.Check("makeTicker:aligned-when-configured", alignedKnown(cl.Block(), true), cl.Pos(), cs)
 			}
 			if cl.Common().IsInvoke() && cl.Common().Method.Name() == "NewTicker" {
 				cs := strings.Join(condStrings(cl.Block()), " && ")
-				r.Check("makeTicker:plain-otherwise", strings.Contains(cs, ".flushAligned=false") && strings.HasSuffix(pathOf(cl.Common().Args[0]), ".flushInterval"), cl.Pos(), cs)
+				r.Check("makeTicker:plain-otherwise", alignedKnown(cl.Block(), false) && isFlusherField(cl.Common().Args[0], "flushInterval"), cl.Pos(), cs)
 			}
 		}
 		// main.go / server: Server fields set from the matching Param keys
